@@ -32,6 +32,7 @@ H_UPD = r"pub fn update_ttl\(&mut self, now: u64\) "
 H_REM = r"fn get_remaining_ttl\(&self, now: u64\) -> u32 "
 H_AOU = r"pub\(crate\) fn add_or_update\("
 H_KA = r"pub\(crate\) fn get_known_answers<'a>\("
+H_SUPP = r"fn suppressed_by_answer\(&self, other: &dyn DnsRecordExt\) -> bool "
 H_RR = r"fn read_rr_records\(&mut self, count: u16\) -> Result<Vec<DnsRecordBox>> "
 
 ITEMS = [
@@ -89,11 +90,16 @@ ITEMS = [
     ("expire_sooner_guard", [("expire_at", "N"), ("expires", "N")], "bool", P,
      r"fn set_expire_sooner\(&mut self, expire_at: u64\) ", r"^\s*if (?P<e>expire_at [^{]+?) \{\s*self\.get_record_mut\(\)\.set_expire\(expire_at\);",
      {"expire_at": "expire_at", "self.get_expire()": "expires"}, False),
-    # known-answer suppression: matches && (other.ttl > self.ttl / 2)
-    ("suppress_ttl_cond", [("self_ttl", "N"), ("other_ttl", "N")], "bool", P,
-     r"fn suppressed_by_answer\(&self, other: &dyn DnsRecordExt\) -> bool ",
-     r"^\s*self\.matches\(other\) && (?P<e>\([^\n]+\))\s*$",
+    # known-answer suppression: same_record && (other.ttl > self.ttl / 2); same_record = matches
+    # with the other record's cache-flush bit overridden by our own
+    ("suppress_ttl_cond", [("self_ttl", "N"), ("other_ttl", "N")], "bool", P, H_SUPP,
+     r"\};\s*same_record && (?P<e>\([^\n]+\))\s*$",
      {"other.get_record().ttl": "other_ttl", "self.get_record().ttl": "self_ttl"}, False),
+    ("suppress_flush_override", [("self_flush", "bool")], "bool", P, H_SUPP,
+     r"^\s*let same_record = if other\.get_cache_flush\(\) == self\.get_cache_flush\(\) \{\s*self\.matches\(other\)\s*\} else \{\s*"
+     r"let mut other = other\.clone_box\(\);\s*other\.get_record_mut\(\)\.entry\.cache_flush = (?P<e>self\.get_cache_flush\(\));\s*"
+     r"self\.matches\(other\.as_ref\(\)\)\s*\};",
+     {"self.get_cache_flush()": "self_flush"}, False),
     # TTL 0 in a response is stored as 1
     ("ttl_zero_guard", [("ttl", "N")], "bool", P, H_RR,
      r"if (?P<e>ttl == \d+) && self\.is_response\(\) \{", {"ttl": "ttl"}, False),
@@ -115,6 +121,11 @@ ITEMS = [
      {"addr.interface_id.index": "a_index", "addr_b.interface_id.index": "b_index"}, False),
     ("flush_new_expire", [("now", "N")], "N", C, H_AOU,
      r"let new_expire = (?P<e>[^;]+);\s*r\.record\.set_expire\(new_expire\);\s*timers\.push\(new_expire\);", {"now": "now"}, False),
+    # a matching record on its way out (TTL <= 1) renewed with TTL > 1 is reported as new
+    ("revived_cond", [("old_ttl", "N"), ("new_ttl", "N")], "bool", C, H_AOU,
+     r"let revived =\s*(?P<e>r\.record\.get_record\(\)\.get_ttl\(\) <= \d+ && incoming\.get_record\(\)\.get_ttl\(\) > \d+);\s*"
+     r"r\.record\.reset_ttl\(incoming\.as_ref\(\)\);\s*\(i, revived\)",
+     {"r.record.get_record().get_ttl()": "old_ttl", "incoming.get_record().get_ttl()": "new_ttl"}, False),
     # known-answer list of a query: shared records only, not past half life
     ("ka_shared_filter", [("is_unique", "bool")], "bool", C, H_KA,
      r"\.filter\(move \|r\| \{\s*(?P<e>!r\.record\.get_record\(\)\.is_unique\(\)) && !r\.record\.get_record\(\)\.halflife_passed\(now\)\s*\}\)",
